@@ -498,5 +498,11 @@ func Ladder(t *rapid.T, nx int) (int, [][]int, string) {
 			cls = append(cls, []int{-xs[nx], w}, []int{-xs[nx], -w})
 		}
 	}
+	if xs[1] != 1 && y != 1 && rapid.Bool().Draw(t, "forbidFirst") {
+		// variable 1 occurs nowhere else: forbid it through a helper (not a unit clause: nothing is decided while parsing).
+		// Whatever takes a stale "variable 1" for a literal of a learned clause then meets a falsified literal.
+		g := newVar()
+		cls = append(cls, []int{-1, g}, []int{-1, -g})
+	}
 	return next - 1 + rapid.IntRange(0, 2).Draw(t, "unusedLast"), cls, tail
 }
